@@ -223,6 +223,56 @@ func c06Body(k int, tomb bool) mc.Body {
 				return *v
 			}
 		}
+		// every existing edge has now been flipped (live <-> deleted): node points again in the flipped shape,
+		// then all edges flipped back and node points once more — what was learnt about a node's ancestors
+		// before a deletion or a restoration must not be used afterwards
+		nodeRound := func(label string) *mc.Outcome {
+			for _, n := range all {
+				pts := data.Points{{Type: "v", Value: 2.5, Time: tick(), Origin: "o"}}
+				seen = nil
+				err := client.SendNodePoints(inst.Nc, n, append(data.Points{}, pts...), true)
+				x.Step(1)
+				if err != nil {
+					return &mc.Outcome{Violation: fmt.Sprintf("node points on %s (%s) refused: %v", n, label, err), Key: "legal-write-refused"}
+				}
+				exp := map[string]bool{"up." + n + "." + n: true}
+				for a := range ancestors(n, false) {
+					exp["up."+a+"."+n] = true
+				}
+				if v := verify("node points on "+n+" "+label, "node-points-after-flip", pts, exp); v != nil {
+					return v
+				}
+			}
+			return nil
+		}
+		flip := func() {
+			for _, e := range cand {
+				if state[e] != 0 {
+					state[e] = 3 - state[e]
+				}
+			}
+		}
+		flip()
+		if v := nodeRound("after every edge was flipped"); v != nil {
+			return *v
+		}
+		for _, e := range cand {
+			if state[e] == 0 {
+				continue
+			}
+			back := 1.0 // state now deleted -> originally live -> send tombstone 0
+			if state[e] == 2 {
+				back = 0
+			}
+			if err := client.SendEdgePoints(inst.Nc, e.c, id(e.p), data.Points{{Type: data.PointTypeTombstone, Value: back, Time: tick()}}, true); err != nil {
+				return mc.Outcome{Violation: fmt.Sprintf("tombstone flipped back on %s>%s refused: %v", e.p, e.c, err), Key: "legal-write-refused"}
+			}
+			x.Step(1)
+		}
+		flip()
+		if v := nodeRound("after every edge was flipped back"); v != nil {
+			return *v
+		}
 		return mc.Outcome{Obs: strings.Join(shape, " "), Trivial: nEdges == 0}
 	}
 }
@@ -237,7 +287,7 @@ func keys(m map[string]bool) []string {
 }
 
 func checkC06(r *mc.Report, thorough bool) {
-	rule := "every DAG shape over root + %d nodes (each of the %d candidate edges absent/live%s; chains, mirrors, diamonds, detached nodes, nodes with points but no edge) x every node: node-point batch, batches with several samples of one identity (rising / falling times); every edge: edge-point batch, batch with several samples of one identity, tombstone re-sent, tombstone flipped; the set of up.* subjects seen by a spy must equal the set computed by graph reachability (node points: live edges; edge points: any edges; up.root.* iff the instance root is reached), payload identical"
+	rule := "every DAG shape over root + %d nodes (each of the %d candidate edges absent/live%s; chains, mirrors, diamonds, detached nodes, nodes with points but no edge) x every node: node-point batch, batches with several samples of one identity (rising / falling times); every edge: edge-point batch, batch with several samples of one identity, tombstone re-sent, tombstone flipped; then node points on every node in the flipped shape, all edges flipped back, node points again; the set of up.* subjects seen by a spy must equal the set computed by graph reachability (node points: live edges; edge points: any edges; up.root.* iff the instance root is reached), payload identical"
 	r.Explore(mc.Config{Name: "shapes-k3", Rule: fmt.Sprintf(rule, 3, 6, "/tombstoned"), SplitDepth: 4, SelfCheckEvery: 200}, c06Body(3, true))
 	if thorough {
 		r.Explore(mc.Config{Name: "shapes-k4", Rule: fmt.Sprintf(rule, 4, 10, "/tombstoned"), SplitDepth: 5}, c06Body(4, true))
